@@ -4,6 +4,7 @@ import (
 	"context"
 
 	"capnproto.org/go/capnp/v3"
+	"capnproto.org/go/capnp/v3/internal/verifhook"
 	rpccp "capnproto.org/go/capnp/v3/std/capnp/rpc"
 )
 
@@ -73,6 +74,7 @@ func (q *question) handleCancel(ctx context.Context) {
 	case <-q.p.Answer().Done():
 		return
 	}
+	verifhook.Yield(740)
 
 	q.c.mu.Lock()
 	if q.flags&finished != 0 {
@@ -102,6 +104,7 @@ func (q *question) handleCancel(ctx context.Context) {
 	}
 	close(q.finishMsgSend)
 	q.c.mu.Unlock()
+	verifhook.Yield(741)
 
 	q.p.Reject(rejectErr)
 	if q.bootstrapPromise != nil {
@@ -112,6 +115,7 @@ func (q *question) handleCancel(ctx context.Context) {
 
 func (q *question) PipelineSend(ctx context.Context, transform []capnp.PipelineOp, s capnp.Send) (*capnp.Answer, capnp.ReleaseFunc) {
 	// Acquire sender lock.
+	verifhook.Yield(750)
 	q.c.mu.Lock()
 	if !q.c.startTask() {
 		q.c.mu.Unlock()
@@ -131,6 +135,7 @@ func (q *question) PipelineSend(ctx context.Context, transform []capnp.PipelineO
 	}
 	q2 := q.c.newQuestion(s.Method)
 	q.c.mu.Unlock()
+	verifhook.Yield(751)
 
 	// Create call message.
 	msg, send, release, err := q.c.transport.NewMessage(ctx)
@@ -145,6 +150,7 @@ func (q *question) PipelineSend(ctx context.Context, transform []capnp.PipelineO
 	q.c.mu.Lock()
 	q.c.unlockSender() // Can't be holding either lock while calling PlaceArgs.
 	q.c.mu.Unlock()
+	verifhook.Yield(752)
 	err = q.c.newPipelineCallMessage(msg, q.id, transform, q2.id, s)
 	if err != nil {
 		q.c.mu.Lock()
@@ -160,11 +166,13 @@ func (q *question) PipelineSend(ctx context.Context, transform []capnp.PipelineO
 	}
 
 	// Send call.
+	verifhook.Yield(753)
 	q.c.mu.Lock()
 	q.c.lockSender()
 	q.c.mu.Unlock()
 	err = send()
 	release()
+	verifhook.Yield(754)
 
 	q.c.mu.Lock()
 	q.c.unlockSender()
@@ -242,6 +250,7 @@ func (c *Conn) newPipelineCallMessage(msg rpccp.Message, tgt questionID, transfo
 		return errorf("place arguments: %v", err)
 	}
 	clients, states := extractCapTable(m)
+	verifhook.Yield(755)
 	c.mu.Lock()
 	// TODO(soon): save param refs
 	_, err = c.fillPayloadCapTable(payload, clients, states)
